@@ -593,6 +593,7 @@ def _mqtt_install(lib):
                 c = I2.c
                 o_ = c.choose([c.fresh("broker_error", BoolS), c.fresh("cancelled", BoolS)], "messages")
                 if o_ == 0:
+                    c.heap.set("ghost.broker_errors", g(I2, "ghost.broker_errors") + 1)
                     raise RaiseSig(_exc(I2, "MqttError", s))
                 if o_ == 1:
                     raise RaiseSig(_exc(I2, "CancelledError", s))
@@ -608,6 +609,8 @@ def _mqtt_install(lib):
                     return MISSING
                 msg.attr = mattr
                 I2.last_mqtt_message = msg
+                for name in stored_names(list(s.body)):
+                    fr2.locals[name] = LOOP_CARRIED  # the iteration executed stands for every iteration
                 I2.assign(s.target, msg, fr2)
                 try:
                     I2.block(s.body, fr2)
